@@ -142,11 +142,39 @@ const c10Wait = 3 * time.Second
 // number of scripts in which something hung: after a few the generator stops (every further one would cost seconds)
 var c10Hangs atomic.Int32
 
-func c10RunSched(task string, pgate bool, lim [6]int, name string, ops [][]string) (string, string) {
+// c10Sampler: the span under test (a root span) gets `root`; a child named "child:D" / "child:R" / "child:S" is dropped /
+// recorded only / recorded and sampled. Child counts must not depend on what the sampler decides for the child.
+type c10Sampler struct{ root SamplingDecision }
+
+func (s *c10Sampler) ShouldSample(p SamplingParameters) SamplingResult {
+	psc := trace.SpanContextFromContext(p.ParentContext)
+	d := RecordAndSample
+	if !psc.IsValid() {
+		d = s.root
+	} else if strings.HasPrefix(p.Name, "child:") {
+		switch p.Name[6:] {
+		case "D":
+			d = Drop
+		case "R":
+			d = RecordOnly
+		}
+	}
+	return SamplingResult{Decision: d, Tracestate: psc.TraceState()}
+}
+func (s *c10Sampler) Description() string { return "c10Sampler" }
+
+func c10Root(recordOnly bool) *c10Sampler {
+	if recordOnly {
+		return &c10Sampler{root: RecordOnly}
+	}
+	return &c10Sampler{root: RecordAndSample}
+}
+
+func c10RunSched(task string, pgate, parentRO bool, lim [6]int, name string, ops [][]string) (string, string) {
 	tp := NewTracerProvider(WithRawSpanLimits(SpanLimits{
 		AttributeCountLimit: lim[0], AttributeValueLengthLimit: lim[1], EventCountLimit: lim[2],
 		LinkCountLimit: lim[3], AttributePerEventCountLimit: lim[4], AttributePerLinkCountLimit: lim[5],
-	}))
+	}), WithSampler(c10Root(parentRO)))
 	defer func() { _ = tp.Shutdown(context.Background()) }()
 	r := &c10Run{pgate: pgate, calls: map[uint64]int{}, ev: map[int]chan string{}, release: map[int]chan struct{}{},
 		open: make(chan struct{})}
@@ -275,7 +303,11 @@ func c10RunSched(task string, pgate bool, lim [6]int, name string, ops [][]strin
 			}
 		case "ch":
 			o = guarded(func() {
-				_, child := tr.Start(ctx, "child")
+				dec := "S"
+				if len(op) > 1 {
+					dec = op[1]
+				}
+				_, child := tr.Start(ctx, "child:"+dec)
 				child.End()
 			})
 		case "ot":
@@ -370,13 +402,14 @@ func c10RunSched(task string, pgate bool, lim [6]int, name string, ops [][]strin
 	return task, strings.Join(obs, " ") + " ## " + strings.Join(fin, " ; ")
 }
 
-func c10GenSched(r *vRand) (string, bool, [6]int, string, [][]string) {
+func c10GenSched(r *vRand) (string, bool, bool, [6]int, string, [][]string) {
 	var lim [6]int
 	for j := range lim {
 		lim[j] = vPick(r, []int{-1, -1, 0, 1, 2, 3, 5, 128})
 	}
 	task := vPick(r, []string{"0", "0", "g", "g", "g", "r"})
 	pgate := r.Intn(3) != 0
+	parentRO := r.Intn(3) == 0
 	name := vStr(r, 2)
 	var ops [][]string
 	reg := map[int]bool{}
@@ -399,7 +432,7 @@ func c10GenSched(r *vRand) (string, bool, [6]int, string, [][]string) {
 		case x < 38:
 			ops = append(ops, []string{"ir"})
 		case x < 48:
-			ops = append(ops, []string{"ch"})
+			ops = append(ops, []string{"ch", vPick(r, []string{"S", "S", "D", "D", "R"})})
 		case x < 52:
 			ops = append(ops, []string{"ot"})
 		case x < 58:
@@ -429,13 +462,17 @@ func c10GenSched(r *vRand) (string, bool, [6]int, string, [][]string) {
 			ops = append(ops, []string{"g", "1"})
 		}
 	}
-	return task, pgate, lim, name, ops
+	return task, pgate, parentRO, lim, name, ops
 }
 
-func c10SchedLine(out *vOut, gen, task string, pgate bool, lim [6]int, name string, ops [][]string) {
-	task, res := c10RunSched(task, pgate, lim, name, ops)
+func c10SchedLine(out *vOut, gen, task string, pgate, parentRO bool, lim [6]int, name string, ops [][]string) {
+	task, res := c10RunSched(task, pgate, parentRO, lim, name, ops)
+	pg := vC04B(pgate)
+	if parentRO {
+		pg += "R" // the span under test is RecordOnly (recording, not sampled)
+	}
 	var sb strings.Builder
-	fmt.Fprintf(&sb, "sched %s %s %s %d %d %d %d %d %d %s", gen, task, vC04B(pgate), lim[0], lim[1], lim[2], lim[3], lim[4], lim[5], vHex(name))
+	fmt.Fprintf(&sb, "sched %s %s %s %d %d %d %d %d %d %s", gen, task, pg, lim[0], lim[1], lim[2], lim[3], lim[4], lim[5], vHex(name))
 	for _, op := range ops {
 		sb.WriteString(" | ")
 		sb.WriteString(strings.Join(op, " "))
@@ -457,7 +494,7 @@ func TestVerifC10Sched(t *testing.T) {
 				lim[i], _ = strconv.Atoi(f[4+i])
 			}
 			if c10Hangs.Load() < 3 {
-				c10SchedLine(out, f[1], f[2], f[3] == "1", lim, vUnhex(f[10]), vC04Split(f[11:]))
+				c10SchedLine(out, f[1], f[2], strings.HasPrefix(f[3], "1"), strings.HasSuffix(f[3], "R"), lim, vUnhex(f[10]), vC04Split(f[11:]))
 			}
 		}
 		return
@@ -465,8 +502,8 @@ func TestVerifC10Sched(t *testing.T) {
 	r := &vRand{s: vSeed() ^ 0xc10}
 	n := vN(1500)
 	for i := 0; i < n && c10Hangs.Load() < 3; i++ {
-		task, pgate, lim, name, ops := c10GenSched(r)
-		c10SchedLine(out, "rnd", task, pgate, lim, name, ops)
+		task, pgate, parentRO, lim, name, ops := c10GenSched(r)
+		c10SchedLine(out, "rnd", task, pgate, parentRO, lim, name, ops)
 	}
 }
 
@@ -562,7 +599,11 @@ func c10OneHist(seed uint64, gen string) string {
 	h := &c10Hist{}
 	nPerm := 1 + r.Intn(3)
 	nShared := r.Intn(4)
-	opts := []TracerProviderOption{WithRawSpanLimits(SpanLimits{-1, -1, -1, -1, -1, -1})}
+	parentRO := r.Intn(3) == 0
+	if parentRO {
+		gen += "-ro" // the shared span is RecordOnly
+	}
+	opts := []TracerProviderOption{WithRawSpanLimits(SpanLimits{-1, -1, -1, -1, -1, -1}), WithSampler(c10Root(parentRO))}
 	perm := []string{}
 	for p := 1; p <= nPerm; p++ {
 		opts = append(opts, WithSpanProcessor(&c10HProc{id: p, h: h}))
@@ -634,8 +675,10 @@ func c10OneHist(seed uint64, gen string) string {
 					span.SetStatus(codes.Code(c), "d")
 					h.stamp("STr" + is)
 				case x < 73:
+					// the sampler drops / records-only / samples the child: it is counted on the parent all the same
+					cname := "child:" + []string{"S", "D", "D", "R"}[gr.Intn(4)]
 					h.stamp("CHc" + is)
-					_, child := tr.Start(ctx, "child")
+					_, child := tr.Start(ctx, cname)
 					h.stamp("CHr" + is)
 					child.End()
 				case x < 85:
